@@ -358,9 +358,10 @@ def check_est(case, ctx):
             a2, m2 = a.copy(), m.copy()
             (a2 if which == 0 else m2)[1] = 0.0
             ob = call(lambda: batch(a2.copy(), m2.copy()))
-            o_bad = call(lambda: single(a2[1].copy(), m2[1].copy()))
-            if not ob.ok and not o_bad.ok and ob.exc_name == o_bad.exc_name:
-                ctx.note("batch and single-item call refuse a dropped-out sample with the same %s: equal behaviour" % ob.exc_name)
+            singles2 = [call(lambda i=i: single(a2[i].copy(), m2[i].copy())) for i in range(N)]
+            if not ob.ok and any((not so.ok) and so.exc_name == ob.exc_name for so in singles2):
+                # the single-item call fails in the same way on one of the rows (the dropped one, or a row at a singular pose - C03's business): equal behaviour
+                ctx.note("batch and single-item call raise the same %s on a recording with a dropped-out sample: equal behaviour" % ob.exc_name)
             elif ctx.returned(ob, clause="no-exception[recording with one dropped-out sample]", route=name):
                 Bv = ob.value
                 okshape = Bv is not None and np.asarray(Bv).dtype != object and len(np.asarray(Bv)) == N
@@ -370,7 +371,7 @@ def check_est(case, ctx):
                     for i in range(N):
                         if i == 1:
                             continue
-                        so = call(lambda i=i: single(a2[i].copy(), m2[i].copy()))
+                        so = singles2[i]
                         if not so.ok or so.value is None:
                             continue
                         sv = np.asarray(so.value, float)
@@ -379,6 +380,8 @@ def check_est(case, ctx):
                         d_ = float(np.abs(Bv[i] - sv).max())
                         if name in BRANCH_CUT_ROUTES and sv.shape == (4,):
                             d_ = min(d_, float(np.abs(Bv[i] + sv).max()))
+                        elif name in BRANCH_CUT_ROUTES and sv.shape == (3,):      # a heading of exactly +-pi (whole-number samples): the same attitude on either side of the cut
+                            d_ = float(np.abs((Bv[i] - sv + np.pi) % (2 * np.pi) - np.pi).max())
                         worst = max(worst, d_)
                     ctx.le("the usable rows of a recording with one dropped-out sample equal the per-sample estimates", worst, max(TOL_EST, 1e-9), {"dropped": "acc" if which == 0 else "mag"}, route=name)
         # one-row batch and one-sample constructor call must equal estimate() with the same options
